@@ -52,56 +52,69 @@ inductive CrcOk (data : Bytes) (fl : Flags) (i4 : Nat) : Nat → Prop
       (heq : c = pySlice data i4 (i4 + 4)) : CrcOk data fl i4 4
   | none (hc : fl.hasCrc = false) : CrcOk data fl i4 0
 
-inductive Path (data : Bytes) : Option Header → Prop
-  | short (h : data.length < 4) : Path data none
+/-- rejected before the cell data are located -/
+inductive PathEarly (data : Bytes) : Prop
+  | short (h : data.length < 4) : PathEarly data
   | badMagic (h : ¬ data.length < 4) (h1 : ¬ pySlice data 0 4 = magicGeneric) (h2 : ¬ pySlice data 0 4 = magicIdx)
-      (h3 : ¬ pySlice data 0 4 = magicIdxCrc) : Path data none
-  | noFlag (h : ¬ data.length < 4) (h4 : data[4]? = none) : Path data none
-  | pre {fl : Flags} (hfl : FlagsAt data fl) (h : data.length < 6 + 3 * fl.sizeBytes) : Path data none
+      (h3 : ¬ pySlice data 0 4 = magicIdxCrc) : PathEarly data
+  | noFlag (h : ¬ data.length < 4) (h4 : data[4]? = none) : PathEarly data
+  | pre {fl : Flags} (hfl : FlagsAt data fl) (h : data.length < 6 + 3 * fl.sizeBytes) : PathEarly data
   | size0 {fl : Flags} {off : Nat} (hfl : FlagsAt data fl) (hpre : ¬ data.length < 6 + 3 * fl.sizeBytes) (h5 : data[5]? = some off)
-      (hs : fl.sizeBytes = 0) : Path data none
+      (hs : fl.sizeBytes = 0) : PathEarly data
   | rootsShort {fl off cells roots absent tot} (hx : Fixed data fl off cells roots absent tot) (hg : fl.generic = true)
-      (h : data.length < 6 + 3 * fl.sizeBytes + off + roots * fl.sizeBytes) : Path data none
+      (h : data.length < 6 + 3 * fl.sizeBytes + off + roots * fl.sizeBytes) : PathEarly data
   | rootsNe1 {fl off cells roots absent tot} (hx : Fixed data fl off cells roots absent tot) (hg : fl.generic = false)
-      (h : roots ≠ 1) : Path data none
+      (h : roots ≠ 1) : PathEarly data
   | idxShort {fl off cells roots absent tot rlen rl} (hx : Fixed data fl off cells roots absent tot)
       (hr : RootsOk data fl off roots rlen rl) (hi : fl.hasIdx = true)
-      (h : data.length < 6 + 3 * fl.sizeBytes + off + rlen + off * cells) : Path data none
+      (h : data.length < 6 + 3 * fl.sizeBytes + off + rlen + off * cells) : PathEarly data
   | off0 {fl off cells roots absent tot rlen rl} (hx : Fixed data fl off cells roots absent tot)
       (hr : RootsOk data fl off roots rlen rl) (hi : fl.hasIdx = true)
-      (h : ¬ data.length < 6 + 3 * fl.sizeBytes + off + rlen + off * cells) (h0 : off = 0) : Path data none
+      (h : ¬ data.length < 6 + 3 * fl.sizeBytes + off + rlen + off * cells) (h0 : off = 0) : PathEarly data
+
+/-- rejected at the cell data / checksum -/
+inductive PathMid (data : Bytes) : Prop
   | totShort {fl off cells roots absent tot rlen rl ilen ix} (hx : Fixed data fl off cells roots absent tot)
       (hr : RootsOk data fl off roots rlen rl) (hix : IndexOk data fl off cells (6 + 3 * fl.sizeBytes + off + rlen) ilen ix)
-      (h : data.length < 6 + 3 * fl.sizeBytes + off + rlen + ilen + tot) : Path data none
+      (h : data.length < 6 + 3 * fl.sizeBytes + off + rlen + ilen + tot) : PathMid data
   | crcShort {fl off cells roots absent tot rlen rl ilen ix} (hx : Fixed data fl off cells roots absent tot)
       (hr : RootsOk data fl off roots rlen rl) (hix : IndexOk data fl off cells (6 + 3 * fl.sizeBytes + off + rlen) ilen ix)
       (ht : ¬ data.length < 6 + 3 * fl.sizeBytes + off + rlen + ilen + tot) (hc : fl.hasCrc = true)
-      (h : data.length < 6 + 3 * fl.sizeBytes + off + rlen + ilen + tot + 4) : Path data none
+      (h : data.length < 6 + 3 * fl.sizeBytes + off + rlen + ilen + tot + 4) : PathMid data
   | crcNone {fl off cells roots absent tot rlen rl ilen ix} (hx : Fixed data fl off cells roots absent tot)
       (hr : RootsOk data fl off roots rlen rl) (hix : IndexOk data fl off cells (6 + 3 * fl.sizeBytes + off + rlen) ilen ix)
       (ht : ¬ data.length < 6 + 3 * fl.sizeBytes + off + rlen + ilen + tot) (hc : fl.hasCrc = true)
       (h : ¬ data.length < 6 + 3 * fl.sizeBytes + off + rlen + ilen + tot + 4)
-      (hcrc : Model.crc32c (data.take (6 + 3 * fl.sizeBytes + off + rlen + ilen + tot)) = none) : Path data none
+      (hcrc : Model.crc32c (data.take (6 + 3 * fl.sizeBytes + off + rlen + ilen + tot)) = none) : PathMid data
   | crcBad {fl off cells roots absent tot rlen rl ilen ix} (hx : Fixed data fl off cells roots absent tot)
       (hr : RootsOk data fl off roots rlen rl) (hix : IndexOk data fl off cells (6 + 3 * fl.sizeBytes + off + rlen) ilen ix)
       (ht : ¬ data.length < 6 + 3 * fl.sizeBytes + off + rlen + ilen + tot) (hc : fl.hasCrc = true)
       (h : ¬ data.length < 6 + 3 * fl.sizeBytes + off + rlen + ilen + tot + 4) (c : Bytes)
       (hcrc : Model.crc32c (data.take (6 + 3 * fl.sizeBytes + off + rlen + ilen + tot)) = some c)
       (hne : c ≠ pySlice data (6 + 3 * fl.sizeBytes + off + rlen + ilen + tot) (6 + 3 * fl.sizeBytes + off + rlen + ilen + tot + 4)) :
-      Path data none
+      PathMid data
+
+/-- reaches the final length check -/
+inductive PathEnd (data : Bytes) : Option Header → Prop
   | trailing {fl off cells roots absent tot rlen rl ilen ix clen} (hx : Fixed data fl off cells roots absent tot)
       (hr : RootsOk data fl off roots rlen rl) (hix : IndexOk data fl off cells (6 + 3 * fl.sizeBytes + off + rlen) ilen ix)
       (ht : ¬ data.length < 6 + 3 * fl.sizeBytes + off + rlen + ilen + tot)
       (hc : CrcOk data fl (6 + 3 * fl.sizeBytes + off + rlen + ilen + tot) clen)
-      (h : data.length ≠ 6 + 3 * fl.sizeBytes + off + rlen + ilen + tot + clen) : Path data none
+      (h : data.length ≠ 6 + 3 * fl.sizeBytes + off + rlen + ilen + tot + clen) : PathEnd data none
   | accept {fl off cells roots absent tot rlen rl ilen ix clen} (hx : Fixed data fl off cells roots absent tot)
       (hr : RootsOk data fl off roots rlen rl) (hix : IndexOk data fl off cells (6 + 3 * fl.sizeBytes + off + rlen) ilen ix)
       (ht : ¬ data.length < 6 + 3 * fl.sizeBytes + off + rlen + ilen + tot)
       (hc : CrcOk data fl (6 + 3 * fl.sizeBytes + off + rlen + ilen + tot) clen)
       (h : data.length = 6 + 3 * fl.sizeBytes + off + rlen + ilen + tot + clen) :
-      Path data (some { fl := fl, offsetBytes := off, cellsNum := cells, rootsNum := roots, absentNum := absent, totCellsSize := tot,
-                        rootList := rl, index := ix,
-                        cellsData := pySlice data (6 + 3 * fl.sizeBytes + off + rlen + ilen) (6 + 3 * fl.sizeBytes + off + rlen + ilen + tot) })
+      PathEnd data (some { fl := fl, offsetBytes := off, cellsNum := cells, rootsNum := roots, absentNum := absent, totCellsSize := tot,
+                           rootList := rl, index := ix,
+                           cellsData := pySlice data (6 + 3 * fl.sizeBytes + off + rlen + ilen) (6 + 3 * fl.sizeBytes + off + rlen + ilen + tot) })
+
+
+inductive Path (data : Bytes) : Option Header → Prop
+  | early (h : PathEarly data) : Path data none
+  | mid (h : PathMid data) : Path data none
+  | final {v : Option Header} (h : PathEnd data v) : Path data v
 
 /-! ### the model follows these paths -/
 
@@ -194,33 +207,33 @@ theorem stData_path (data : Bytes) {fl : Flags} {off cells roots absent tot rlen
   unfold stData
   simp only []
   by_cases ht : data.length < 6 + 3 * fl.sizeBytes + off + rlen + ilen + tot
-  · rw [if_pos ht]; exact Path.totShort hx hr hix ht
+  · rw [if_pos ht]; exact Path.mid <| PathMid.totShort hx hr hix ht
   rw [if_neg ht]
   cases hc : fl.hasCrc with
   | false =>
     simp only [Bool.false_eq_true, if_false, Option.bind_some]
     by_cases hl : data.length = 6 + 3 * fl.sizeBytes + off + rlen + ilen + tot
-    · have := Path.accept hx hr hix ht (CrcOk.none hc) (by omega)
+    · have := Path.final (PathEnd.accept hx hr hix ht (CrcOk.none hc) (by omega))
       simpa [hl] using this
-    · have := Path.trailing hx hr hix ht (CrcOk.none hc) (by omega)
+    · have := Path.final (PathEnd.trailing hx hr hix ht (CrcOk.none hc) (by omega))
       simpa [hl] using this
   | true =>
     simp only [if_true]
     by_cases h4 : data.length < 6 + 3 * fl.sizeBytes + off + rlen + ilen + tot + 4
-    · rw [if_pos h4]; exact Path.crcShort hx hr hix ht hc h4
+    · rw [if_pos h4]; exact Path.mid <| PathMid.crcShort hx hr hix ht hc h4
     rw [if_neg h4]
     cases hcrc : Model.crc32c (data.take (6 + 3 * fl.sizeBytes + off + rlen + ilen + tot)) with
     | none =>
-      have := Path.crcNone hx hr hix ht hc h4 hcrc
+      have := Path.mid (PathMid.crcNone hx hr hix ht hc h4 hcrc)
       simpa using this
     | some c =>
       by_cases hcs : c = pySlice data (6 + 3 * fl.sizeBytes + off + rlen + ilen + tot) (6 + 3 * fl.sizeBytes + off + rlen + ilen + tot + 4)
       · by_cases hl : data.length = 6 + 3 * fl.sizeBytes + off + rlen + ilen + tot + 4
-        · have := Path.accept hx hr hix ht (CrcOk.some hc h4 c hcrc hcs) hl
+        · have := Path.final (PathEnd.accept hx hr hix ht (CrcOk.some hc h4 c hcrc hcs) hl)
           simpa [hcs, hl] using this
-        · have := Path.trailing hx hr hix ht (CrcOk.some hc h4 c hcrc hcs) hl
+        · have := Path.final (PathEnd.trailing hx hr hix ht (CrcOk.some hc h4 c hcrc hcs) hl)
           simpa [hcs, hl] using this
-      · have := Path.crcBad hx hr hix ht hc h4 c hcrc hcs
+      · have := Path.mid (PathMid.crcBad hx hr hix ht hc h4 c hcrc hcs)
         simpa [hcs] using this
 
 theorem stIndex_path (data : Bytes) {fl : Flags} {off cells roots absent tot rlen : Nat} {rl : List Nat}
@@ -236,10 +249,10 @@ theorem stIndex_path (data : Bytes) {fl : Flags} {off cells roots absent tot rle
   | true =>
     simp only [if_true]
     by_cases hs : data.length < 6 + 3 * fl.sizeBytes + off + rlen + off * cells
-    · rw [if_pos hs]; exact Path.idxShort hx hr hi hs
+    · rw [if_pos hs]; exact Path.early <| PathEarly.idxShort hx hr hi hs
     rw [if_neg hs]
     by_cases h0 : off = 0
-    · rw [if_pos h0]; exact Path.off0 hx hr hi hs h0
+    · rw [if_pos h0]; exact Path.early <| PathEarly.off0 hx hr hi hs h0
     rw [if_neg h0]
     simp only [Option.bind_some]
     exact stData_path data hx hr (IndexOk.some hi hs h0)
@@ -251,21 +264,21 @@ theorem model_path (data : Bytes) : Path data (deserializeBocHeader data) := by
   · have : readFields data = none := by simp [readFields, h0]
     rw [this]
     rcases hc with h | ⟨h, h1, h2, h3⟩ | ⟨h, h4⟩
-    · exact Path.short h
-    · exact Path.badMagic h h1 h2 h3
-    · exact Path.noFlag h h4
+    · exact Path.early <| PathEarly.short h
+    · exact Path.early <| PathEarly.badMagic h h1 h2 h3
+    · exact Path.early <| PathEarly.noFlag h h4
   rcases readFields_cases data fl hf hfl with ⟨h0, hc⟩ | ⟨off, cells, roots, absent, tot, hF, hx⟩
   · rw [h0]
     rcases hc with h | ⟨h, off, h5, hs⟩
-    · exact Path.pre hfl h
-    · exact Path.size0 hfl h h5 hs
+    · exact Path.early <| PathEarly.pre hfl h
+    · exact Path.early <| PathEarly.size0 hfl h h5 hs
   rw [hF]
   simp only [Option.bind_some, Fields.hdrEnd, Fields.rootsLen]
   cases hg : fl.generic with
   | true =>
     simp only [if_true]
     by_cases hs : data.length < 6 + 3 * fl.sizeBytes + off + roots * fl.sizeBytes
-    · simp only [hs, ↓reduceIte]; exact Path.rootsShort hx hg hs
+    · simp only [hs, ↓reduceIte]; exact Path.early <| PathEarly.rootsShort hx hg hs
     simp only [hs, ↓reduceIte, Option.bind_some]
     exact stIndex_path data hx (RootsOk.generic hg hs)
   | false =>
@@ -277,6 +290,6 @@ theorem model_path (data : Bytes) : Path data (deserializeBocHeader data) := by
       exact stIndex_path data hx (RootsOk.legacy hg h1)
     · have : (roots != 1) = true := by simp [h1]
       rw [this]
-      exact Path.rootsNe1 hx hg h1
+      exact Path.early <| PathEarly.rootsNe1 hx hg h1
 
 end TonVerif.Proofs.BocHeaderPath
